@@ -28,7 +28,7 @@ fn parts(t: Tier) -> Vec<Part> {
         Tier::Quick => 1_200_000,
         Tier::Thorough => 12_000_000,
     };
-    vec![tape("hidden", a, 1200)]
+    vec![tape("hidden", a, 1200), tape("related-secrets", a / 4, 1500)]
 }
 
 pub fn check(h: &HiddenCase, cx: &mut Cx) -> Res {
@@ -88,8 +88,19 @@ pub fn check(h: &HiddenCase, cx: &mut Cx) -> Res {
     Ok(())
 }
 
-fn run_tape(_part: &str, tape: &[u8], cx: &mut Cx) -> Res {
+fn run_tape(part: &str, tape: &[u8], cx: &mut Cx) -> Res {
     let mut t = Tape::new(tape);
+    if part == "related-secrets" {
+        // a value hidden under s1 revealed under s1, then under a related s2 (a peer with a different secret), back to back
+        let h = gen_hide(&mut t);
+        let s2 = related_secret(&mut t, &h.secret);
+        let v1 = hide(h.avp.attr, &h.payload, &h.secret, &h.rv, &h.lp, &h.ap);
+        let v2 = hide(h.avp.attr, &h.payload, &s2, &h.rv, &h.lp, &h.ap);
+        for (v, s) in [(&v1, &h.secret), (&v1, &s2), (&v2, &h.secret), (&v2, &s2)] {
+            check(&HiddenCase { attr: h.avp.attr, value: v.clone(), secret: s.clone(), rv: h.rv, crafted: Some(6 + h.payload.len()) }, cx)?;
+        }
+        return Ok(());
+    }
     check(&gen_hidden(&mut t), cx)
 }
 
